@@ -60,6 +60,7 @@ type Machine struct {
 	rtypes    map[string]*rtypeV
 	rtypeT    types.Type
 	keySeq    int
+	symLogs   map[*value][]logEntry
 }
 
 type inputRec struct {
@@ -475,6 +476,11 @@ func (m *Machine) indexAddr(x value, idx *smt.Term) value {
 		if i < 0 || i >= int64(len(elems)) {
 			panic(runtimeErr{fmt.Sprintf("index out of range [%d] with length %d", i, len(elems))})
 		}
+		if len(m.symLogs) > 0 && len(elems) > 0 {
+			if _, ok := m.symLogs[&elems[0]]; ok {
+				return &logPtr{elems: elems, idx: m.c.BVConst(64, uint64(i)), m: m}
+			}
+		}
 		return &elems[i]
 	}
 	idx = m.toIdx64(idx)
@@ -493,8 +499,51 @@ func (m *Machine) indexAddr(x value, idx *smt.Term) value {
 	if scalar && len(elems) <= m.env.IteIndexMax {
 		return &elemPtr{elems: elems, idx: idx, m: m}
 	}
+	if scalar {
+		// large scalar table (hash tables): symbolic accesses go through a write log
+		return &logPtr{elems: elems, idx: idx, m: m}
+	}
 	i := m.concretize(idx, "index")
 	return &elems[i]
+}
+
+// logPtr addresses one element of a large scalar array that is accessed with
+// symbolic indices.  Writes through it are appended to a per-array log
+// (m.symLogs, keyed by the address of element 0); reads fold the log over the
+// base contents: read(i) = ite(i == i_k, v_k, ... base[i]).  Once an array has
+// a log every access (also with a constant index) goes through it.
+type logPtr struct {
+	elems []value
+	idx   *smt.Term // BV64, in range under the path condition
+	m     *Machine
+}
+
+type logEntry struct {
+	idx *smt.Term
+	v   *smt.Term
+}
+
+func (p *logPtr) load() value {
+	m := p.m
+	var r *smt.Term
+	if p.idx.IsConst() {
+		r = p.elems[p.idx.V].(*smt.Term)
+	} else {
+		r = (&elemPtr{elems: p.elems, idx: p.idx, m: m}).load().(*smt.Term)
+	}
+	for _, e := range m.symLogs[&p.elems[0]] {
+		r = m.c.Ite(m.c.Eq(e.idx, p.idx), e.v, r)
+	}
+	return r
+}
+
+func (p *logPtr) store(v value) {
+	m := p.m
+	if m.symLogs == nil {
+		m.symLogs = map[*value][]logEntry{}
+	}
+	k := &p.elems[0]
+	m.symLogs[k] = append(m.symLogs[k], logEntry{p.idx, v.(*smt.Term)})
 }
 
 func (m *Machine) toIdx64(idx *smt.Term) *smt.Term {
